@@ -9,7 +9,8 @@
     arbitrary types; an implementation is an arbitrary function of the private
     data of the record it is called with and of the arguments. *)
 From Coq Require Import List Bool Arith.
-From KdV Require Import Cb.CbModel Cb.CbSpec Cb.CbProofs.
+From Coq Require Import NArith.
+From KdV Require Import Cb.CbModel Cb.CbSpec Cb.CbProofs Cb.CbCache Cb.CbCacheProofs Hist.ReadCache Hist.ReadCacheProofs.
 Import ListNotations.
 
 Section C17.
@@ -84,6 +85,42 @@ Print Assumptions C17_del_restores_anywhere.
 Print Assumptions C17_pinned_get_page_read_caps.
 Print Assumptions C17_library_sites_pass_top_record.
 Print Assumptions C17_empty_layers_change_nothing_at_call_sites.
+
+(** ** Layers and the read cache (Cb/CbCache.v over Hist/ReadCache.v)
+
+    [addrxlat_ctx_add_cb] / [addrxlat_ctx_del_cb] change the record list only.
+    A history that interleaves reads through the context's read cache with
+    additions and deletions of layers that override nothing (at any time, in
+    particular while the cache is warm) has exactly the page events, the read
+    results and the final cache of the same history without the layer
+    operations over the base stack alone ... *)
+Theorem C17_layers_do_not_disturb_read_cache :
+  forall (P : Type) (s0 : lstack P), base_complete P PA PR s0 ->
+  forall ops privs c,
+  dels_ok P (length privs) ops = true ->
+  let '(st', ev, rs) :=
+    hrun P {| h_stack := map (empty_layer P PA PR) privs ++ s0; h_cache := c |} ops in
+  h_cache P st' = final (gp P s0) c (erase P ops) /\
+  ev = snd (run (gp P s0) c (erase P ops)) /\
+  map (fun r => OutR r) rs =
+    filter (fun o => match o with OutR _ => true | _ => false end)
+           (map fst (fst (run (gp P s0) c (erase P ops)))).
+Proof. exact hrun_erase. Qed.
+Print Assumptions C17_layers_do_not_disturb_read_cache.
+
+(** ... and every page obtained from the base layer is given back exactly
+    once: gotten = put + held by the slots at every point, and the final
+    [cleanup_cache] of context destruction puts exactly the held ones *)
+Theorem C17_pages_put_exactly_once :
+  forall (P : Type) (s0 : lstack P) ops,
+  base_complete P PA PR s0 -> regions_ok (gp P s0) -> dels_ok P 0 ops = true ->
+  let '(st', ev, _) := hrun P {| h_stack := s0; h_cache := init_cache |} ops in
+  forall f : page -> nat,
+    msum f (gots ev) = (msum f (puts ev) + msum f (live (h_cache P st')))%nat /\
+    msum f (gots (ev ++ cleanup_events (h_cache P st'))) =
+    msum f (puts (ev ++ cleanup_events (h_cache P st'))).
+Proof. exact layers_pages_balanced. Qed.
+Print Assumptions C17_pages_put_exactly_once.
 
 (** defect 3 of the pinned tree: with one pass-through layer the lower
     implementation of reg_value is handed the upper layer's private data ... *)
